@@ -93,6 +93,9 @@ OPEN = [
  ("KF-C08-1", "C08", "C08-late-connect-boots-merged",
   "two consecutive boots of one ECU are merged into one lifecycle when the calculated start of the later boot (power-on + its constant delay) is not after the calculated end of the earlier one (power-on + delay + largest uptime), i.e. the earlier boot's transport delay exceeds the later one's by at least the recording gap ('recorder connected late'); cascades through the merged range included. Heuristic of the detector (membership = calculated start <= current end); no small safe repair.",
   "replays/examples/C08-late-connect-boots-merged.json"),
+ ("KF-C13-1", "C13", "C13-remote-client-keeps-merged-lifecycle",
+  "remote server: a lifecycle that was published (and sent to the client in a lifecycle update) while its messages were still queued, and merged into its predecessor afterwards, is never withdrawn: the update protocol only carries changed lifecycles and has no removal, so a client that follows the updates ends with a lifecycle (e.g. ECU0, 2 msgs) that the final table of the same file does not contain. Whether the server observes the intermediate state depends on the pacing of the pipeline (seen with channel bound 0: lifecycle stage parked in send while the server loop polls the table; with unbounded channels the stage finishes first). A repair needs a protocol extension (removal notice) on server and client side; not small and safe.",
+  "replays/examples/C13-remote-client-keeps-merged-lifecycle.json"),
 ]
 out = []
 for (i, p, k, subj, what, rp) in FIXED:
